@@ -74,7 +74,7 @@ let err_name = function
 
 (* [live id]: the module's interface has been set (its functions can be called); [values]: print
    what calling/reading through an import yields *)
-let show_binding ?(nulled=false) live values ((k, n), d) =
+let show_binding ?(nulled=false) ?(unsure=(fun _ -> false)) live values ((k, n), d) =
   let kc = match k with KImport -> "i" | KExport -> "e" | KForward -> "f" | _ -> "?" in
   let n = int_of_nat n in
   let tag, v = match d with
@@ -89,6 +89,9 @@ let show_binding ?(nulled=false) live values ((k, n), d) =
                   else Some (string_of_int (1000 + 16 * int_of_nat id + n))
        | KData -> Printf.sprintf "M%d.%d" (int_of_nat id) (int_of_nat idx), Some (string_of_int (5000 + 16 * int_of_nat id + n))
        | _ -> "null", None) in
+  let v = match v, d with
+    | Some _, Some (DMod (_, _, KFunc) | DExt _) when unsure n -> Some "?"
+    | _ -> v in
   match k, v with
   | KImport, Some v when values -> Printf.sprintf "%s%d=%s/%s" kc n tag v
   | _ -> Printf.sprintf "%s%d=%s" kc n tag
@@ -138,12 +141,20 @@ let pubs_of_re before sc (s' : state) res =
           id := S !id) dss) sc;
   !out @ res
 
+(* the harness prints the linked modules in module-number order *)
+let by_id l = List.stable_sort (fun (a, _) (b, _) -> compare (int_of_nat a) (int_of_nat b)) l
+
 let run_history line =
   let ops = List.filter_map (fun s -> match parse_op s with Some o -> Some (o, is_quiet s) | None -> None)
       (String.split_on_char ';' line) in
   let b = Buffer.create 256 in
   let st = ref init in
   let nulled = ref [] in   (* modules that went through a NULL-interface link *)
+  (* (module, name): an import bound to a MIR function by a link step DURING which (after the binding) the
+     resolver loaded a newer definition of the name: the address is the older definition's, a call may have
+     been inlined from the newer one (process_inlines follows the table entry, updated in place); the call
+     value is printed as `?` and not compared (design/C13.md, Round 3 wave 5) *)
+  let unsure = ref [] in
   let log = ref [] in      (* pubs of the trace so far: every definition made visible, oldest first *)
   let first = ref true in
   (try
@@ -154,8 +165,9 @@ let run_history line =
            let live id = List.exists (fun (i, _) -> int_of_nat i = id) s'.linked in
            if not quiet then List.iter (fun (id, bs) ->
                Buffer.add_string b (Printf.sprintf " m%d{%s}" (int_of_nat id)
-                                      (String.concat " " (List.map (show_binding ~nulled:(List.mem id !nulled) live true) bs))))
-               s'.linked in
+                                      (String.concat " " (List.map (show_binding ~nulled:(List.mem id !nulled)
+                                                                      ~unsure:(fun n -> List.mem (id, n) !unsure) live true) bs))))
+               (by_id s'.linked) in
          match ho with
          | LinkRe (sc, fb) ->
            let (s', out) = step_re !st sc fb in
@@ -164,7 +176,11 @@ let run_history line =
            if not !first then Buffer.add_string b " | ";
            first := false;
            (match out with
-            | RLinked (_, res) ->
+            | RLinked (bs, res) ->
+              List.iter (fun (id, l) -> List.iter (fun ((k, n), d) ->
+                  match k, d with
+                  | KImport, Some (DMod (_, _, KFunc) | DExt _) when assoc s'.env n <> d -> unsure := (id, int_of_nat n) :: !unsure
+                  | _ -> ()) l) bs;
               log := !log @ pubs_of_re before sc s' res;
               Buffer.add_string b ("ok " ^ show_rlog res);
               show_linked s'
@@ -194,8 +210,9 @@ let run_history line =
            Buffer.add_string b ("ok " ^ show_res res);
            if not quiet then List.iter (fun (id, bs) ->
                Buffer.add_string b (Printf.sprintf " m%d{%s}" (int_of_nat id)
-                                      (String.concat " " (List.map (show_binding ~nulled:(List.mem id !nulled) live true) bs))))
-             s'.linked
+                                      (String.concat " " (List.map (show_binding ~nulled:(List.mem id !nulled)
+                                                                      ~unsure:(fun n -> List.mem (id, n) !unsure) live true) bs))))
+             (by_id s'.linked)
          | OBound (bs, res) ->
            Buffer.add_string b ("ok " ^ show_res res);
            List.iter (fun (id, _) -> if not (List.mem id !nulled) then nulled := id :: !nulled) bs;
